@@ -322,15 +322,15 @@ Definition run_add (rules probes : list (list N)) : list bool * list bool * list
 
 (* mode load: the text through the loader; the reference reads the cleaned non-blank lines up to the
    first rejected one *)
-Fixpoint ok_prefix (rules : list (list N)) : list (list N) :=
+Fixpoint ok_prefix (re_valid : list N -> bool) (rules : list (list N)) : list (list N) :=
   match rules with
   | [] => []
-  | r :: rest => if is_ok (parse_rule lit_re_valid r) then r :: ok_prefix rest else []
+  | r :: rest => if is_ok (parse_rule re_valid r) then r :: ok_prefix re_valid rest else []
   end.
 Definition clean_rules (text : list N) : list (list N) :=
   filter (fun b => negb (is_nil b)) (map clean_line (split_lines text)).
 
 Definition run_load (text : list N) (probes : list (list N)) : bool * list bool * list bool :=
   let '(m, ok) := load_text lit_re_valid text (mix_empty) in
-  let es := entries_of lit_re_valid (ok_prefix (clean_rules text)) in
+  let es := entries_of lit_re_valid (ok_prefix lit_re_valid (clean_rules text)) in
   (ok, map (mix_match lit_re_match m) probes, map (spec_mix lit_re_match es) probes).
